@@ -61,7 +61,10 @@ def build_factory(cfg):
         sign = 1.0 if cfg["mode"] == "min" else -1.0
         R_job = R + 2 if cfg["kind"] == "pbt" else R
         extra = lambda t, level, run: {ST_WORKER_COST: 0.5 * level}
-        spec = ScriptSpec(table(8, R_job, sign), R_job, max_resource_attr=info["mra"], checkpointing=True, extra=extra)
+        tab = table(8, R_job, sign)
+        if cfg.get("nan_first"):
+            tab[0][0] = float("nan")   # the very first value of the experiment is NaN (a diverged first epoch)
+        spec = ScriptSpec(tab, R_job, max_resource_attr=info["mra"], checkpointing=True, extra=extra)
         backend = ScriptedBackend(chooser, spec, cfg["W"], profile=cfg["profile"], fault_budget=cfg.get("F", 0),
                                   faults=("crash",), log=log, late_results=False)
         rec = tunerx.make_recorder_callback(log, loop_cap=cfg.get("loop_cap", 60), extra=snapshot)
@@ -83,7 +86,8 @@ def build_factory(cfg):
 
 def ctx_of(cfg):
     crit = "+".join(sorted(cfg["stop"]))
-    return f"{cfg['kind']}/W{cfg['W']}/{crit}/{'wait' if cfg.get('wait') else 'nowait'}" + ("/inject" if cfg.get("inject") else "")
+    return (f"{cfg['kind']}/W{cfg['W']}/{crit}/{'wait' if cfg.get('wait') else 'nowait'}" + ("/inject" if cfg.get("inject") else "")
+            + ("/nan-first" if cfg.get("nan_first") else ""))
 
 
 def label(cfg):
@@ -133,6 +137,14 @@ def configs(tier, seed):
                         cfg["mra"] = (pi + ci) % 3 != 0
                         cfg["async"] = not (W == 2 and (pi + ci) % 4 == 1)
                         out.append(cfg)
+    # metric thresholds when the very first value handed to the loop is NaN
+    for kind in ("fifo-random", "hb-stopping"):
+        for stop in ({"min_metric_value": {"m": 1.0}}, {"max_metric_value": {"m": 4.0}}):
+            for W in (1, 2):
+                for prof in (tunerx.PROFILES[0], tunerx.PROFILES[3]):
+                    out.append(dict(kind=kind, W=W, R=3, mode="min", seed=seed, profile=prof, stop=stop, wait=False,
+                                    k=1 if tier == "quick" else 2, F=0, max_failures=0, nan_first=True,
+                                    max_exec=100 if tier == "quick" else 1000))
     # finite search space whose size is not a multiple of n_workers: exhaustion in the middle of a batch of free workers
     for W in (2, 3):
         for gs in (3, 5):
